@@ -220,7 +220,7 @@ func checkC05(c *runCtx) {
 	// ---- VT: two real agents started in the same role
 	p := newVTPool()
 	defer p.close()
-	dl := c01deadline(c, 150, 1200)
+	dl := c01deadline(c, 240, 1200)
 	h1, h2 := []string{"host"}, []string{"host", "host"}
 	type sp struct {
 		name string
